@@ -4,7 +4,7 @@ cd /verif
 B=$1; shift
 for id in "$@"; do
   s=$(date +%s); nice -n 5 ./bin/gosx -check checks/$id.json -tier thorough -no-evidence -budget $B > /tmp/thorough_$id.log 2>&1; rc=$?; e=$(date +%s)
-  echo "$id exit=$rc $((e-s))s $(grep -E '^  paths=' /tmp/thorough_$id.log | cut -c1-150)" >> /tmp/thorough_summary.txt
-  grep -E "INCONCL|ENGINE|^VIOLATION" /tmp/thorough_$id.log | head -3 >> /tmp/thorough_summary.txt
+  echo "$id exit=$rc $((e-s))s $(grep -E '^  paths=' /tmp/thorough_$id.log | cut -c1-150)" >> /tmp/thorough_summary2.txt
+  grep -E "INCONCL|ENGINE|^VIOLATION" /tmp/thorough_$id.log | head -3 >> /tmp/thorough_summary2.txt
 done
-echo DONE >> /tmp/thorough_summary.txt
+echo DONE >> /tmp/thorough_summary2.txt
